@@ -49,6 +49,13 @@ class SStr:
     def __repr__(self):
         return "SStr(%r)" % (self.chunks,)
 
+    def __getattr__(self, name):
+        # a str method this model does not offer: not an AttributeError of the code under analysis but a limit of the engine
+        if hasattr(str, name):
+            from .sym import OutsideSubset
+            raise OutsideSubset("str.%s on a symbolic string" % name)
+        raise AttributeError(name)
+
     def __hash__(self):
         return id(self)
 
